@@ -132,10 +132,8 @@ def run(prop, tier, seed, replay=None):
     # correspondence with the Coq model
     # (a zip_latest that is re-entered through a feedback edge while it drains its backlog re-reads its buffer on every
     #  iteration; the model's drain is a fixed list: such cases are covered by the oracle only)
-    def modelled(c):
-        return not (c.get("fb") and any(c["nodes"][i]["k"] == "zip_latest" for i in syncoracle.cycle_nodes(c)))
     co_all = co
-    co = [(c, o) for (c, o) in co_all if modelled(c)]
+    co = [(c, o) for (c, o) in co_all if modelled_case(c)]
     n_fb = sum(1 for (c, _) in co_all if c.get("fb"))
     mism, errors = syncrun.correspondence(prop, co)
     for p, o_ in errors:
@@ -169,6 +167,12 @@ def run(prop, tier, seed, replay=None):
         cov["evaluations"] += async_cov.get("evaluations", 0)
         cov["distinct_nontrivial"] += async_cov.get("distinct_nontrivial", 0)
     return out.finish(proof, cov)
+
+
+def modelled_case(c):
+    """a zip_latest that is re-entered through a feedback edge while it drains its backlog re-reads its buffer on every
+    iteration; the model's drain is a fixed list: such cases are covered by the oracle only"""
+    return not (c.get("fb") and any(c["nodes"][i]["k"] == "zip_latest" for i in syncoracle.cycle_nodes(c)))
 
 
 def embedded(prop, tier, seed, out, known, want):
@@ -206,12 +210,14 @@ def embedded(prop, tier, seed, out, known, want):
                 out.violation(sig, msg, {"case": shrink(c, still), "family": "sync"})
                 nfind += 1
             break
+    n_all = len(co)
+    co = [(c, o) for (c, o) in co if modelled_case(c)]
     mism, errors = syncrun.correspondence(prop + "s", co)
     if mism and not out.violations:
         out.violation("%s/correspondence/model-differs/sync" % prop,
                       "Coq model (Sync.Pipeline) and implementation disagree on %d of %d synchronous cases" % (len(mism), len(co)),
                       {"case": co[mism[0]][0], "family": "sync", "correspondence": "Sync.Pipeline.agree"}, no_input=True)
-    return {"evaluations": len(co), "traces_validated_against_impl": len(co) - len(mism), "disagreements_checked": len(mism)}
+    return {"evaluations": n_all, "traces_validated_against_impl": len(co) - len(mism), "disagreements_checked": len(mism)}
 
 
 def fault_oracle(case, obs, diag):
